@@ -212,7 +212,7 @@ def check_property(pid, tier="quick", seed=0, out=sys.stdout):
                 "replay": rep,
                 "source": r.source,
             }
-            fname = os.path.join("replays", pid, ob.oid.replace(":", "_").replace("#", "__").replace("/", "_") + "_" + hashlib.sha1((str(ob.pc) + str(ob.goal)).encode()).hexdigest()[:8] + ".json")
+            fname = os.path.join("replays", pid, ob.oid.replace(":", "_").replace("#", "__").replace("/", "_").replace("<", "").replace(">", "-") + "_" + hashlib.sha1((str(ob.pc) + str(ob.goal)).encode()).hexdigest()[:8] + ".json")
             json.dump(rec, open(os.path.join(VERIF, fname), "w"), indent=1, default=str)
             if hit:
                 known_hits.append((hit, ob, fname))
